@@ -116,6 +116,7 @@ fn main() {
             let seed: u64 = args[4].parse().expect("seed");
             let outdir = args[5].as_str();
             let thorough = tier == "thorough";
+            std::env::set_var("PFV_TIER", tier);
             quiet_panics();
             let t0 = Instant::now();
             let out = match id {
@@ -172,7 +173,11 @@ fn main() {
         }
         "analyze" => {
             // debug: analyze a hex pickle with O1/O2 and print the verdict
-            let b = unhex(&args[2]);
+            let b = if let Some(p) = args[2].strip_prefix("@") {
+                unhex(&std::fs::read_to_string(p).expect("hex file"))
+            } else {
+                unhex(&args[2])
+            };
             let a = analysis::analyze(&b, true);
             println!("lex_err={:?}", a.lex_err.as_ref().map(|e| e.to_string()));
             println!("ops={} trailing={}", a.ins.len(), a.trailing);
@@ -228,11 +233,48 @@ mod mon_bytes_run {
 
     pub fn c01(thorough: bool, seed: u64) -> CheckOutput {
         let n = if thorough { 3_000_000 } else { 150_000 };
-        let mut sp = Space::safe();
-        sp.ranges.push((3000, 3300));
+        let sp = Space::safe();
+        let t0 = Instant::now();
+        // W6 large pickles run on their own threads alongside the matrix (they take 10-20 s each)
+        let big: Vec<(u8, u64, usize)> = if thorough {
+            (0..12).map(|k| ((k % 6) as u8, seed.wrapping_add(k as u64), 50_000 + 2_000 * (k as usize % 4))).collect()
+        } else {
+            vec![(2, seed, 50_000), (4, seed + 1, 52_000)]
+        };
+        let big_handles: Vec<_> = big
+            .iter()
+            .map(|&(p, s, t)| {
+                std::thread::spawn(move || {
+                    let mut acc = Acc::new();
+                    let cfg = Config {
+                        min: t,
+                        max: t,
+                        ..Config::default_for(p, Entropy::Seed(s))
+                    };
+                    let res = run_case(&cfg, None);
+                    check_c01(&cfg, &res, &mut acc);
+                    acc.count("large_pickles_50k_plus_opcodes", 1);
+                    acc
+                })
+            })
+            .collect();
         let mut acc = bulk(n, seed, &sp, None, check_c01);
+        // a block of 3000+ opcode pickles
+        let long = par_run(
+            n / 100,
+            Acc::new,
+            |i, acc| {
+                let mut cfg = matrix_case(i, seed ^ 0x3000, &sp);
+                cfg.min = 3000;
+                cfg.max = 3300;
+                let res = run_case(&cfg, None);
+                check_c01(&cfg, &res, acc);
+            },
+            |a, b| a.merge(b),
+        );
+        acc.merge(long);
         // decision-tree exploration (W4): every opcode sequence up to depth k, flags on
-        let (ex_depth, max_depth, budget) = if thorough { (3, 14, 3_000_000) } else { (2, 8, 120_000) };
+        let (ex_depth, max_depth, budget) = if thorough { (4, 16, 60_000_000) } else { (2, 9, 1_200_000) };
         let mut explore_json = vec![];
         for proto in 0..6u8 {
             for filler_kind in [0u8, 2u8] {
@@ -246,29 +288,12 @@ mod mon_bytes_run {
                     "levels": st.levels, "abstract_states": st.abstract_states, "max_depth": st.max_depth}));
             }
         }
-        // W6 large pickles: the collapse loop cap needs > 20k stack items
-        let big: Vec<(u8, u64, usize)> = if thorough {
-            (0..12).map(|k| ((k % 6) as u8, seed.wrapping_add(k as u64), 48_000 + 2_000 * (k as usize % 4))).collect()
-        } else {
-            vec![(2, seed, 46_000), (0, seed + 1, 46_000)]
-        };
-        let big_acc = par_run(
-            big.len(),
-            Acc::new,
-            |i, acc| {
-                let (p, s, t) = big[i];
-                let cfg = Config {
-                    min: t,
-                    max: t,
-                    ..Config::default_for(p, Entropy::Seed(s))
-                };
-                let res = run_case(&cfg, None);
-                check_c01(&cfg, &res, acc);
-                acc.count("large_pickles_45k_plus_opcodes", 1);
-            },
-            |a, b| a.merge(b),
-        );
-        acc.merge(big_acc);
+        for h in big_handles {
+            match h.join() {
+                Ok(a) => acc.merge(a),
+                Err(_) => acc.inconclusive.push("large-pickle worker thread panicked".into()),
+            }
+        }
         if acc.get("mark_consuming_opcodes") < 1000 {
             acc.inconclusive.push("too few MARK-consuming opcodes observed".into());
         }
